@@ -153,10 +153,7 @@ func H19_NullReused() {
 // H19_ManyValues: a long history of distinct values (more than any small
 // table or slab would hold), then symbolic ones: everything returned earlier
 // keeps its value, interned == plain, and nothing aliases the input buffer.
-func H19_ManyValues() { manyValues(1100) }
-
-// H19_ManyValues_T (thorough): 4200 distinct values (past a 4096-entry bound).
-func H19_ManyValues_T() { manyValues(4200) }
+func H19_ManyValues() { manyValues(4200) }
 
 func manyValues(N int) {
 	vrt.MapOrder(false)
@@ -185,7 +182,7 @@ func manyValues(N int) {
 		decode(vrt.String(idx("s", step), 2))
 	}
 	// spot checks over the whole history, ends and the usual table sizes included
-	for _, i := range []int{0, 1, 254, 255, 256, 511, 512, 1022, 1023, 1024, 1025, 2047, 2048, 4094, 4095, 4096, 4097, N - 1, N, N + 1} {
+	for _, i := range []int{0, 1, 254, 255, 256, 511, 512, 1022, 1023, 1024, 1025, 2047, 2048, 4094, 4095, 4096, 4097, 8190, 8191, 8192, 8193, N - 1, N, N + 1} {
 		if i > N+1 {
 			continue
 		}
